@@ -39,19 +39,15 @@ Intervals (value bounds) are tracked by the GENERATOR only, so that log/sqrt/rec
 rates/Bernoulli probabilities/inverse covariances get arguments inside their domain and magnitudes stay
 moderate (|value| <= 1e3 at every node); the oracle does not need them.
 """
-import inspect
 import itertools
 import logging
 import math
-import sys
 import warnings
-from types import SimpleNamespace
 
 import numpy as np
 from hypothesis import strategies as st
 
 import nifty.cl as ift
-from nifty.cl.operators.sum_operator import SumOperator
 from vlib import Discard, Sub, close, require
 from vlib import nx
 from vlib import strat as S
@@ -185,88 +181,11 @@ def _jax_op(u, node, scope):
     return ift.JaxOperator(dom, u.dom(t), lambda x: fn(x, keys)), t
 
 
-def build_lop(u, sp):
-    """linear-operator expression between MultiDomains (mtypes) -> LinearOperator (see module docstring)"""
-    k = sp[0]
-    if k == "id":
-        return ift.ScalingOperator(u.dom(sp[1]), sp[2])
-    if k == "diag":
-        dom = u.dom(sp[1])
-        return ift.makeOp(ift.MultiField.from_dict(
-            {tk: u.field(u.mtypes[sp[1]][tk], v) for tk, v in sp[2].items()}, dom))
-    if k == "block":
-        dom = u.dom(sp[1])
-        return ift.BlockDiagonalOperator(dom, {tk: DenseLin(dom[tk], dom[tk], M) for tk, M in sp[2].items()})
-    if k == "proj":
-        dom = u.dom(sp[1])
-        pe = ift.PartialExtractor(dom, ift.MultiDomain.make({tk: dom[tk] for tk in sp[2]}))
-        return pe.adjoint @ pe
-    if k == "pe":
-        return ift.PartialExtractor(u.dom(sp[1]), u.dom(sp[2]))
-    if k == "pe_adj":
-        return ift.PartialExtractor(u.dom(sp[2]), u.dom(sp[1])).adjoint
-    if k == "mix":
-        da, db = u.dom(sp[1]), u.dom(sp[2])
-        ops = [DenseLin(da[ti], db[to], M).ducktape(ti).ducktape_left(to) for ti, to, M, _ in sp[3]]
-        negs = [bool(p[3]) for p in sp[3]]
-        if sp[4] == "make":
-            return SumOperator.make(ops, negs)
-        res = -ops[0] if negs[0] else ops[0]
-        for o, n in zip(ops[1:], negs[1:]):
-            res = res - o if n else res + o
-        return res
-    if k == "chain":
-        return build_lop(u, sp[1]) @ build_lop(u, sp[2])
-    if k == "sum":
-        return SumOperator.make([build_lop(u, x) for x in sp[1]], [bool(n) for n in sp[2]])
-    if k == "add":
-        return build_lop(u, sp[1]) + build_lop(u, sp[2])
-    if k == "sub":
-        return build_lop(u, sp[1]) - build_lop(u, sp[2])
-    if k == "scale":
-        return sp[1] * build_lop(u, sp[2])
-    if k == "neg":
-        return -build_lop(u, sp[1])
-    if k == "adj":
-        return build_lop(u, sp[1]).adjoint
-    raise ValueError(k)
-
-
-LOP_CHILDREN = {"chain": [1, 2], "add": [1, 2], "sub": [1, 2], "scale": [2], "neg": [1], "adj": [1]}
-
-
-def lop_tags(sp, acc):
-    acc.add("lop_" + sp[0])
-    if sp[0] == "sum":
-        for x in sp[1]:
-            lop_tags(x, acc)
-        if sp[2][0]:
-            acc.add("lop_sum_first_negated")
-    elif sp[0] == "mix":
-        acc.add("lop_mix_" + sp[4])
-        if sp[3][0][3]:
-            acc.add("lop_mix_first_negated")
-    for i in LOP_CHILDREN.get(sp[0], []):
-        lop_tags(sp[i], acc)
-
-
 def build(u, node, scope):
     """field-valued expression -> (operator, type).  scope: key -> type of all variables visible here"""
     k = node[0]
     if k == "jax":
         return _jax_op(u, node, scope)
-    if k == "lop":
-        # linear operator acting directly on the MultiDomain of the input keys named by mtype node[1]
-        assert all(scope[kk] == tt for kk, tt in u.mtypes[node[1]].items())
-        L = build_lop(u, node[3])
-        assert L.domain is u.dom(node[1]) and L.target is u.dom(node[2]), (L.domain, L.target)
-        return L, node[2]
-    if k == "lapp":
-        o, t = build(u, node[4], scope)
-        assert t == node[1]
-        L = build_lop(u, node[3])
-        assert L.domain is u.dom(node[1]) and L.target is u.dom(node[2]), (L.domain, L.target)
-        return L @ o, node[2]
     if k == "var":
         t = scope[node[1]]
         return ift.FieldAdapter(u.dom(t), node[1]), t
@@ -443,7 +362,7 @@ def build_energy(u, node, scope):
 
 
 CHILD_POS = {
-    "var": [], "id": [], "vcge_raw": [], "jax": [], "jaxlh": [], "lop": [], "lapp": [4], "duck": [2], "ptw": [2], "pow": [2], "clip": [3], "scale": [2], "neg": [1],
+    "var": [], "id": [], "vcge_raw": [], "jax": [], "jaxlh": [], "duck": [2], "ptw": [2], "pow": [2], "clip": [3], "scale": [2], "neg": [1],
     "diag": [2], "addf": [2], "addc": [2], "dense": [3], "hart": [1], "sum": [1], "integrate": [1], "get": [2],
     "mul": [1, 2], "add": [1, 2], "sub": [1, 2], "div": [1, 2], "vdot": [1, 2], "subst": [3, 4],
     "gauss": [3], "poisson": [2], "bernoulli": [2], "invgamma": [3], "studentt": [2], "vcge": [2, 3],
@@ -457,14 +376,11 @@ def children(node):
     return [node[i] for i in CHILD_POS[node[0]]]
 
 
-def leafkeys(node, bound=(), mt=None):
-    """input keys reaching this node (substituted pseudo keys resolve to the keys of their inner expression);
-    mt: the recipe's mtypes (needed for "lop" leaves: they take all keys of their key-named mtype)"""
+def leafkeys(node, bound=()):
+    """input keys reaching this node (substituted pseudo keys resolve to the keys of their inner expression)"""
     k = node[0]
     if k == "var":
         return set() if node[1] in bound else {node[1]}
-    if k == "lop":
-        return set(mt[node[1]])
     if k == "duck":
         return {node[1]}
     if k == "vcge_raw":
@@ -474,14 +390,14 @@ def leafkeys(node, bound=(), mt=None):
     if k == "jaxlh":
         return set(node[1])
     if k == "subst":
-        return leafkeys(node[3], bound, mt) | leafkeys(node[4], tuple(bound) + (node[1],), mt)
+        return leafkeys(node[3], bound) | leafkeys(node[4], tuple(bound) + (node[1],))
     res = set()
     for c in children(node):
-        res |= leafkeys(c, bound, mt)
+        res |= leafkeys(c, bound)
     return res
 
 
-def binary_nodes(node, acc, bound=(), depth=0, mt=None):
+def binary_nodes(node, acc, bound=(), depth=0):
     """list of (tag, [key sets of the operands], depth) for all nodes with >= 2 operands"""
     k = node[0]
     if k == "vcge_raw":
@@ -490,25 +406,20 @@ def binary_nodes(node, acc, bound=(), depth=0, mt=None):
     if k in ("jax", "jaxlh"):
         acc.append((k, [{kk} for kk in (node[2] if k == "jax" else node[1])], depth))
         return
-    if k == "lop":
-        acc.append((k, [{kk} for kk in sorted(mt[node[1]])], depth))
-        return
     ch = children(node)
     if k == "subst":
-        acc.append((k, [leafkeys(node[3], bound, mt), leafkeys(node[4], tuple(bound) + (node[1],), mt)], depth))
-        binary_nodes(node[3], acc, bound, depth + 1, mt)
-        binary_nodes(node[4], acc, tuple(bound) + (node[1],), depth + 1, mt)
+        acc.append((k, [leafkeys(node[3], bound), leafkeys(node[4], tuple(bound) + (node[1],))], depth))
+        binary_nodes(node[3], acc, bound, depth + 1)
+        binary_nodes(node[4], acc, tuple(bound) + (node[1],), depth + 1)
         return
     if len(ch) >= 2:
-        acc.append((k, [leafkeys(c, bound, mt) for c in ch], depth))
+        acc.append((k, [leafkeys(c, bound) for c in ch], depth))
     for c in ch:
-        binary_nodes(c, acc, bound, depth + 1, mt)
+        binary_nodes(c, acc, bound, depth + 1)
 
 
 def tags(node, acc):
     acc.add(node[0] if node[0] != "ptw" else "ptw_" + node[1])
-    if node[0] in ("lop", "lapp"):
-        lop_tags(node[3], acc)
     for c in children(node):
         tags(c, acc)
 
@@ -572,131 +483,14 @@ def _val(x):
     return nx.flat(x)
 
 
-class _Trace:
-    """Observation only (coverage histogram): records which per-class overrides of
-    `_simplify_for_constant_input_nontrivial` are entered, and with which constant key sets.  The original
-    method is called unchanged and every class is restored on exit."""
-    NAME = "_simplify_for_constant_input_nontrivial"
-    _classes = None
-
-    def __init__(self):
-        self.calls = {}     # label -> number of calls
-
-    @classmethod
-    def _overriders(cls):
-        if cls._classes is None:
-            found = []
-            for mname, mod in sorted(sys.modules.items()):
-                if not (mname == "nifty.cl" or mname.startswith("nifty.cl.")) or mod is None:
-                    continue
-                for obj in list(vars(mod).values()):
-                    if (inspect.isclass(obj) and obj not in found and cls.NAME in vars(obj)
-                            and str(getattr(obj, "__module__", "")).startswith("nifty.cl")):
-                        found.append(obj)
-            cls._classes = found
-        return cls._classes
-
-    def __enter__(self):
-        self._saved = []
-        for c in self._overriders():
-            orig = vars(c)[self.NAME]
-            self._saved.append((c, orig))
-            setattr(c, self.NAME, self._wrapper(c, orig))
-        return self
-
-    def _wrapper(self, c, orig):
-        calls, default = self.calls, c is ift.Operator
-
-        def traced(obj, c_inp):
-            label = ("default:" + type(obj).__name__) if default else c.__name__
-            calls[label] = calls.get(label, 0) + 1
-            return orig(obj, c_inp)
-        return traced
-
-    def __exit__(self, *a):
-        for c, orig in self._saved:
-            setattr(c, self.NAME, orig)
-
-    def classes(self):
-        res = set()
-        for label in self.calls:
-            res.add("reach_" + label)
-        return res
-
-
-def _compare(op, op2, dom, keys, Kset, X, Y, ref, wm, pre, detail):
-    """relations between `op2`, claimed to be `op` with the keys Kset fixed to X|Kset, and the un-specialised
-    `op` (ref = its value, dense Jacobian, dense metric at X).  `pre` prefixes the bucket names.  Returns lin2."""
-    val0, J0, M0 = ref
-    V = [k for k in keys if k not in Kset]
-    vdom = ift.MultiDomain.make({k: dom[k] for k in V})
-    require(op2.domain is vdom, pre + "op2_domain", f"{detail}: {op2.domain} is not {vdom}")
-    require(op2.target is op.target, pre + "op2_target", f"{detail}: {op2.target} is not {op.target}")
-    v = X.extract_by_keys(V)
-    # value (plain field in, and through a Linearization)
-    close(_val(op2(v)), val0, pre + "value", tol=TOL, detail=detail)
-    lin2 = op2(ift.Linearization.make_var(v, wm))
-    close(_val(lin2.val), val0, pre + "value_linearization", tol=TOL, detail=detail)
-    # value at a second variable position
-    yv = Y.extract_by_keys(V)
-    mixed = ift.MultiField.union([yv, X.extract_by_keys(sorted(Kset))])
-    close(_val(op2(yv)), _val(op(mixed)), pre + "value_second_point", tol=TOL, detail=detail)
-    # Jacobian
-    vc = _cols(dom, set(V))
-    close(_dense_jac(lin2), J0[:, vc], pre + "jacobian", tol=TOL, detail=detail)
-    require(lin2.jac.domain is vdom and lin2.jac.target is op.target, pre + "jacobian_domain", detail)
-    # metric
-    if wm:
-        M2 = _dense_metric(lin2)
-        require((M2 is None) == (M0 is None), pre + "metric_presence",
-                f"{detail}: specialised metric {'missing' if M2 is None else 'present'}, "
-                f"full metric {'missing' if M0 is None else 'present'}")
-        if M0 is not None:
-            require(lin2.metric.domain is vdom, pre + "metric_domain", f"{detail}: {lin2.metric.domain}")
-            close(M2, M0[np.ix_(vc, vc)], pre + "metric", tol=TOL, detail=detail)
-    return lin2
-
-
-def _ordered_partitions(K):
-    """all sequences of >= 2 disjoint non-empty groups (each in the order of K) with union K"""
-    res = []
-
-    def rec(rest, acc):
-        if not rest:
-            if len(acc) >= 2:
-                res.append(tuple(acc))
-            return
-        for r in range(1, len(rest) + 1):
-            for g in itertools.combinations(rest, r):
-                rec([k for k in rest if k not in g], acc + [g])
-    rec(list(K), [])
-    return res
-
-
-def _sequence_sets(rec, keys):
-    """constant key sets (>= 2 keys, proper) that are reached by successive specialisation: all of them for
-    <= 3 keys, the one drawn in the recipe for 4 keys"""
-    n = len(keys)
-    if n < 3:
-        return []
-    if n == 3:
-        return list(itertools.combinations(keys, 2))
-    sq = rec.get("seq") or {"perm": keys, "nconst": 2}
-    perm = [k for k in sq["perm"] if k in keys]
-    nc = min(max(int(sq["nconst"]), 2), n - 1)
-    first = set(perm[:nc])
-    return [tuple(k for k in keys if k in first)]
-
-
 def core_check(rec, energy):
     u = Universe(rec)
     scope = dict(rec["keys"])
-    mt = rec.get("mtypes", {})
     op = build_energy(u, rec["expr"], scope) if energy else build(u, rec["expr"], scope)[0]
     dom = op.domain
     assert isinstance(dom, ift.MultiDomain), "generated operator has no MultiDomain"
     keys = list(dom.keys())
-    expected = leafkeys(rec["expr"], mt=mt)
+    expected = leafkeys(rec["expr"])
     # precondition of everything below: the un-specialised operator takes exactly the keys it is built from
     require(set(keys) == expected, "operator_domain_keys",
             f"operator built from keys {sorted(expected)} has domain keys {sorted(keys)}")
@@ -713,119 +507,95 @@ def core_check(rec, energy):
     if not (np.all(np.isfinite(val0)) and np.all(np.isfinite(J0)) and (M0 is None or np.all(np.isfinite(M0)))):
         # the generator keeps all intermediate values bounded, so this should (almost) never happen
         raise Discard()
-    ref = (val0, J0, M0)
 
     binaries = []
-    binary_nodes(rec["expr"], binaries, mt=mt)
+    binary_nodes(rec["expr"], binaries)
     cut_tags = set()
     deep_cut = False
     classes = set()
-    oneshot = {}
-    with _Trace() as trace:
-        for K in _subsets(keys):
-            Kset = set(K)
-            V = [k for k in keys if k not in Kset]
-            c = X.extract_by_keys(K)
-            cbytes = nx.flat(c).tobytes()
-            res = op.simplify_for_constant_input(c)
-            require(isinstance(res, tuple) and len(res) == 2, "return_shape", f"{type(res)}")
-            c_out, op2 = res
-            require(nx.flat(c).tobytes() == cbytes, "constants_modified", f"K={K}")
-            _compare(op, op2, dom, keys, Kset, X, Y, ref, wm, "", f"K={K}")
-            oneshot[frozenset(K)] = op2
-            if wm and M0 is not None:
+    for K in _subsets(keys):
+        Kset = set(K)
+        V = [k for k in keys if k not in Kset]
+        c = X.extract_by_keys(K)
+        v = X.extract_by_keys(V)
+        cbytes = nx.flat(c).tobytes()
+        res = op.simplify_for_constant_input(c)
+        require(isinstance(res, tuple) and len(res) == 2, "return_shape", f"{type(res)}")
+        c_out, op2 = res
+        vdom = ift.MultiDomain.make({k: dom[k] for k in V})
+        require(op2.domain is vdom, "op2_domain", f"K={K}: {op2.domain} is not {vdom}")
+        require(op2.target is op.target, "op2_target", f"K={K}: {op2.target} is not {op.target}")
+        require(nx.flat(c).tobytes() == cbytes, "constants_modified", f"K={K}")
+
+        # value (plain field in, and through a Linearization)
+        val2 = _val(op2(v))
+        close(val2, val0, "value", tol=TOL, detail=f"K={K}")
+        lin2 = op2(ift.Linearization.make_var(v, wm))
+        close(_val(lin2.val), val0, "value_linearization", tol=TOL, detail=f"K={K}")
+        # value at a second variable position
+        mixed = ift.MultiField.union([Y.extract_by_keys(V), c])
+        close(_val(op2(Y.extract_by_keys(V))), _val(op(mixed)), "value_second_point", tol=TOL, detail=f"K={K}")
+
+        # Jacobian
+        vc = _cols(dom, set(V))
+        J2 = _dense_jac(lin2)
+        close(J2, J0[:, vc], "jacobian", tol=TOL, detail=f"K={K}")
+        require(lin2.jac.domain is vdom and lin2.jac.target is op.target, "jacobian_domain", f"K={K}")
+
+        # Linearization.make_partial_var on the un-specialised operator: constant columns vanish
+        part = op(ift.Linearization.make_partial_var(X, list(K), wm))
+        Jp = _dense_jac(part)
+        Jref = np.zeros_like(J0)
+        Jref[:, vc] = J0[:, vc]
+        close(Jp, Jref, "partial_var_jacobian", tol=TOL, detail=f"K={K}")
+
+        # metric
+        if wm:
+            M2 = _dense_metric(lin2)
+            require((M2 is None) == (M0 is None), "metric_presence",
+                    f"K={K}: specialised metric {'missing' if M2 is None else 'present'}, "
+                    f"full metric {'missing' if M0 is None else 'present'}")
+            if M0 is not None:
+                require(lin2.metric.domain is vdom, "metric_domain", f"K={K}: {lin2.metric.domain}")
+                close(M2, M0[np.ix_(vc, vc)], "metric", tol=TOL, detail=f"K={K}")
                 classes.add("metric_compared")
 
-            # Linearization.make_partial_var on the un-specialised operator: constant columns vanish
-            vc = _cols(dom, set(V))
-            part = op(ift.Linearization.make_partial_var(X, list(K), wm))
-            Jp = _dense_jac(part)
-            Jref = np.zeros_like(J0)
-            Jref[:, vc] = J0[:, vc]
-            close(Jp, Jref, "partial_var_jacobian", tol=TOL, detail=f"K={K}")
+        if c_out is not None:
+            classes.add("c_out_not_none")
+            require(isinstance(op.target, ift.MultiDomain), "c_out_type", "constant output for non-multi target")
+            for kk in c_out.keys():
+                close(nx.flat(c_out[kk]), nx.flat(full.val[kk]), "c_out_value", tol=TOL, detail=f"K={K} key={kk}")
 
-            if c_out is not None:
-                classes.add("c_out_not_none")
-                require(isinstance(op.target, ift.MultiDomain), "c_out_type", "constant output for non-multi target")
-                for kk in c_out.keys():
-                    close(nx.flat(c_out[kk]), nx.flat(full.val[kk]), "c_out_value", tol=TOL,
-                          detail=f"K={K} key={kk}")
-
-            for tag, parts, depth in binaries:
-                allk = set().union(*parts)
-                if allk & Kset and allk - Kset:
-                    cut_tags.add(tag)
-                    if depth >= 1:
-                        deep_cut = True
-            classes.add("result_" + type(op2).__name__)
-
-        # sequences of specialisations: the constant keys fixed group after group, in every order and grouping,
-        # must give the same operator (value / Jacobian / metric) as the original with all of them inserted
-        seqsets = _sequence_sets(rec, keys)
-        staged = {}
-        for K in seqsets:
-            for seq in _ordered_partitions(K):
-                for j in range(1, len(seq) + 1):
-                    pre = seq[:j]
-                    if pre in staged:
-                        continue
-                    if j == 1:
-                        staged[pre] = oneshot[frozenset(pre[0])]
-                        continue
-                    prev = staged[seq[:j - 1]]
-                    res = prev.simplify_for_constant_input(X.extract_by_keys(pre[-1]))
-                    require(isinstance(res, tuple) and len(res) == 2, "seq_return_shape", f"{type(res)}")
-                    staged[pre] = res[1]
-                    done = set().union(*pre)
-                    _compare(op, res[1], dom, keys, done, X, Y, ref, wm, "seq_",
-                             "constants fixed one group after the other: " + " then ".join(map(str, pre)))
-                    classes.add(f"seq_{j}_steps")
-                    classes.add("seq_result_" + type(res[1]).__name__)
-    classes |= trace.classes()
-    return SimpleNamespace(u=u, op=op, keys=keys, X=X, full=full, val0=val0, J0=J0, M0=M0, cut=cut_tags,
-                           deep=deep_cut, classes=classes, oneshot=oneshot, seqsets=seqsets)
+        for tag, parts, depth in binaries:
+            allk = set().union(*parts)
+            if allk & Kset and allk - Kset:
+                cut_tags.add(tag)
+                if depth >= 1:
+                    deep_cut = True
+        classes.add("result_" + type(op2).__name__)
+    return u, op, keys, X, full, val0, J0, M0, cut_tags, deep_cut, classes
 
 
-def _sum_first_negated(op, depth=0):
-    """histogram only: does the built operator contain a SumOperator whose first stored summand is negated?"""
-    if depth > 12:
-        return False
-    if isinstance(op, SumOperator) and len(getattr(op, "_neg", ())) and op._neg[0]:
-        return True
-    subs = []
-    for name in ("_ops", "_op1", "_op2", "_op", "_lh"):
-        x = getattr(op, name, None)
-        if isinstance(x, (list, tuple)):
-            subs += [y for y in x if isinstance(y, ift.Operator)]
-        elif isinstance(x, ift.Operator):
-            subs.append(x)
-    return any(_sum_first_negated(x, depth + 1) for x in subs)
-
-
-def _finish(rec, r):
-    mt = rec.get("mtypes", {})
+def _finish(rec, keys, cut_tags, deep_cut, classes):
     tg = set()
     tags(rec["expr"], tg)
-    classes = set(r.classes)
+    classes = set(classes)
     classes |= {"node_" + t for t in tg}
-    classes |= {"cut_" + t for t in r.cut}
-    classes.add(f"nkeys_{len(r.keys)}")
-    if _sum_first_negated(r.op):
-        classes.add("built_sum_first_negated")
+    classes |= {"cut_" + t for t in cut_tags}
+    classes.add(f"nkeys_{len(keys)}")
     nb = []
-    binary_nodes(rec["expr"], nb, mt=mt)
-    nontrivial = bool(r.cut) and ((len(nb) >= 2 and r.deep) or bool(r.cut & {"jax", "jaxlh", "lop"}))
+    binary_nodes(rec["expr"], nb)
+    nontrivial = bool(cut_tags) and ((len(nb) >= 2 and deep_cut) or bool(cut_tags & {"jax", "jaxlh"}))
     return dict(nontrivial=nontrivial, classes=sorted(classes))
 
 
 def check_field(rec):
     with _Quiet():
-        r = core_check(rec, energy=False)
-    op = r.op
-    r.classes.add("target_" + ("multi" if isinstance(op.target, ift.MultiDomain) else
-                               ("scalar" if op.target.size == 1 and len(op.target) == 0 else "field")))
-    r.classes.add("op_" + type(op).__name__)
-    return _finish(rec, r)
+        u, op, keys, X, full, val0, J0, M0, cut, deep, classes = core_check(rec, energy=False)
+    classes.add("target_" + ("multi" if isinstance(op.target, ift.MultiDomain) else
+                             ("scalar" if op.target.size == 1 and len(op.target) == 0 else "field")))
+    classes.add("op_" + type(op).__name__)
+    return _finish(rec, keys, cut, deep, classes)
 
 
 def _need_x64():
@@ -895,69 +665,44 @@ def _adapter_relations(op, E, Kset, keys, cpart, want_metric, where, ref=None):
     return None
 
 
-def _minimise(op, E, Kset, keys, cpart, wm, name, iters, classes, where):
-    """a few minimiser steps from the adapter E; the relations must hold at the final position too"""
-    mini = MINIMIZERS[name](ift.GradientNormController(iteration_limit=iters))
-    try:
-        E2, _ = mini(E)
-    except Exception as e:  # noqa: BLE001  (minimiser robustness is not this property: see ASSUMPTIONS)
-        classes.add("minimiser_raised_" + type(e).__name__)
-        return
-    require(isinstance(E2, ift.EnergyAdapter), "minimiser_result_type", f"{type(E2)}")
-    if nx.flat(E2.position).tobytes() != nx.flat(E.position).tobytes():
-        classes.add("minimiser_moved")
-    pk = set(E2.position.domain.keys())
-    require(not (pk & Kset), "adapter_position_has_constant_key",
-            f"{where} K={sorted(Kset)} position keys {sorted(pk)}")
-    if not np.all(np.isfinite(nx.flat(E2.position))) or not np.isfinite(E2.value):
-        classes.add("nonfinite_after_steps")
-        return
-    r = _adapter_relations(op, E2, Kset, keys, cpart, wm, where, None)
-    classes.add("min_" + name)
-    if r:
-        classes.add(r)
-
-
 def check_energy(rec):
     with _Quiet():
-        r = core_check(rec, energy=True)
-        op, keys, X, classes = r.op, r.keys, r.X, r.classes
+        u, op, keys, X, full, val0, J0, M0, cut, deep, classes = core_check(rec, energy=True)
         classes.add("op_" + type(op).__name__)
-        classes.add("metric_" + ("none" if r.M0 is None else "present"))
+        classes.add("metric_" + ("none" if M0 is None else "present"))
         ad = rec["adapter"]
-        has_metric = r.M0 is not None
-        ref0 = (r.val0, r.J0.reshape(-1), r.M0)      # scalar target: the gradient is the (real) Jacobian row
-        # minimiser (NewtonCG needs the metric)
-        name = ad["min"]
-        if name == "NewtonCG" and not has_metric:
-            name = "L_BFGS"
-        wm = has_metric and (name == "NewtonCG" or ad["wm"])
-        classes.add("adapter_wm" if wm else "adapter_nometric")
+        has_metric = M0 is not None
+        ref0 = (val0, J0.reshape(-1), M0)      # scalar target: the gradient is the (real) Jacobian row
         for K in _subsets(keys):
             Kset = set(K)
             cpart = X.extract_by_keys(K)
+            # minimiser (NewtonCG needs the metric)
+            name = ad["min"]
+            if name == "NewtonCG" and not has_metric:
+                name = "L_BFGS"
+            wm = has_metric and (name == "NewtonCG" or ad["wm"])
             E = ift.EnergyAdapter(X, op, constants=list(K), want_metric=wm, nanisinf=True)
             _adapter_relations(op, E, Kset, keys, cpart, wm, "initial", ref0)
-            _minimise(op, E, Kset, keys, cpart, wm, name, ad["iters"], classes, "after_steps")
-        # EnergyAdapter(constants=K2) on an energy that has already been specialised for K1
-        first = True
-        for K in r.seqsets:
-            Kset = set(K)
-            cpart = X.extract_by_keys(K)
-            for seq in _ordered_partitions(K):
-                if len(seq) != 2:
-                    continue
-                op1 = r.oneshot[frozenset(seq[0])]
-                pos1 = X.extract_by_keys([k for k in keys if k not in seq[0]])
-                E = ift.EnergyAdapter(pos1, op1, constants=list(seq[1]), want_metric=wm, nanisinf=True)
-                _adapter_relations(op, E, Kset, keys, cpart, wm, f"prespecialised for {seq[0]}, constants={seq[1]}",
-                                   ref0)
-                classes.add("adapter_on_prespecialised")
-                if first:
-                    first = False
-                    _minimise(op, E, Kset, keys, cpart, wm, name, ad["iters"], classes,
-                              f"after_steps prespecialised for {seq[0]}, constants={seq[1]}")
-    return _finish(rec, r)
+            classes.add("adapter_wm" if wm else "adapter_nometric")
+            mini = MINIMIZERS[name](ift.GradientNormController(iteration_limit=ad["iters"]))
+            try:
+                E2, _ = mini(E)
+            except Exception as e:  # noqa: BLE001  (minimiser robustness is not this property: see ASSUMPTIONS)
+                classes.add("minimiser_raised_" + type(e).__name__)
+                continue
+            require(isinstance(E2, ift.EnergyAdapter), "minimiser_result_type", f"{type(E2)}")
+            if nx.flat(E2.position).tobytes() != nx.flat(E.position).tobytes():
+                classes.add("minimiser_moved")
+            pk = set(E2.position.domain.keys())
+            require(not (pk & Kset), "adapter_position_has_constant_key", f"final K={K} position keys {sorted(pk)}")
+            if not np.all(np.isfinite(nx.flat(E2.position))) or not np.isfinite(E2.value):
+                classes.add("nonfinite_after_steps")
+                continue
+            r = _adapter_relations(op, E2, Kset, keys, cpart, wm, "after_steps")
+            classes.add("min_" + name)
+            if r:
+                classes.add(r)
+    return _finish(rec, keys, cut, deep, classes)
 
 
 # ------------------------------------------------------------------------------------------
@@ -1022,7 +767,6 @@ class Ctx:
         self.mtypes = mtypes
         self.keys = dict(keys)      # key -> type
         self.pos = set(pos)
-        self.kmt = sorted(m for m in mtypes if m.startswith("mk"))   # MultiDomains of input keys (tkey == key)
         self.nz = 0                 # substituted pseudo keys created
         self.ivs = {}               # key -> interval (pseudo keys get their inner interval)
 
@@ -1085,7 +829,7 @@ def _dense(ctx, node, iv, t_from, t_to):
     return _tame(ctx, ["dense", M, t_to, node], (-b, b))
 
 
-def _leaf(ctx, t, scope, must, linear=False):
+def _leaf(ctx, t, scope, must):
     """leaf of type t (a FieldAdapter, a ducktaped single-domain chain, or a dense map of another key)"""
     draw = ctx.draw
     cands = [k for k in sorted(scope) if scope[k] == t]
@@ -1097,20 +841,9 @@ def _leaf(ctx, t, scope, must, linear=False):
         key = draw(st.sampled_from(sorted(scope)))
     kt = scope[key]
     iv = ctx.key_iv(key)
-    if key in ctx.keys and ctx.kmt and draw(st.integers(0, 3)) == 0:
-        # multi-key linear leaf: one component of a linear operator acting on a MultiDomain of input keys
-        As = [A for A in ctx.kmt if key in ctx.mtypes[A]]
-        Bs = _mtypes_with(ctx, t)
-        if As and Bs:
-            A, B = draw(st.sampled_from(As)), draw(st.sampled_from(Bs))
-            tk = draw(st.sampled_from([c for c in sorted(ctx.mtypes[B]) if ctx.mtypes[B][c] == t]))
-            spec, gi, _ = _gen_lop(ctx, A, B, draw(st.sampled_from([-1, 0, 0, 1, 1, 2])))
-            b = gi * max(_mag(ctx.key_iv(c)) for c in ctx.mtypes[A])
-            return _tame_lin(ctx, ["get", tk, ["lop", A, B, spec]], (-b, b), linear)
     if key in ctx.keys and draw(st.integers(0, 5)) == 0:
         # ducktape: operator on the plain DomainTuple, renamed to take the key
-        inner, iiv = _linear_unary(ctx, ["id", kt], iv, kt) if linear else \
-            _unary(ctx, ["id", kt], iv, kt, allow_dense=False)
+        inner, iiv = _unary(ctx, ["id", kt], iv, kt, allow_dense=False)
         node, iv = ["duck", key, inner], iiv
     else:
         node = ["var", key]
@@ -1223,10 +956,6 @@ def gen(ctx, t, depth, scope, must=(), linear=False):
     draw = ctx.draw
     must = list(must)
     if len(must) >= 2 and t not in ctx.mtypes:
-        mts = _mtypes_with(ctx, t)
-        if mts and depth >= 1 and draw(st.integers(0, 2)) == 0:
-            # component of a MultiDomain-valued expression that takes all the keys
-            return _gen_get(ctx, t, depth, scope, must, linear, mts)
         # a binary node is needed to join them
         a, b = [must[0]], [must[1]]
         for k in must[2:]:
@@ -1234,18 +963,14 @@ def gen(ctx, t, depth, scope, must=(), linear=False):
         return _gen_binary(ctx, t, depth, scope, a, b, linear)
     choice = draw(st.integers(0, 9))
     if t in ctx.mtypes:
-        if choice <= 3:
-            res = _gen_mlin(ctx, t, depth, scope, must, linear)
-            if res is not None:
-                return res
-        if depth <= 0 or choice <= 6 or (linear and choice <= 7):
+        if depth <= 0 or choice <= 2 or (linear and choice <= 5):
             return _gen_pack(ctx, t, depth, scope, must, linear)
         a, b = [], []
         for k in must:
             (a if draw(st.booleans()) else b).append(k)
         return _gen_binary(ctx, t, depth, scope, a, b, linear)
     if depth <= 0 or choice <= 1:
-        return _leaf(ctx, t, scope, must[0] if must else None, linear)
+        return _leaf(ctx, t, scope, must[0] if must else None)
     if choice <= 5:
         return _gen_binary(ctx, t, depth, scope, must, [], linear)
     return _gen_unary(ctx, t, depth, scope, must, linear)
@@ -1267,10 +992,13 @@ def _gen_unary(ctx, t, depth, scope, must, linear):
         return _tame(ctx, ["integrate", node], (-b, b))
     if t in ctx.mtypes:
         return _gen_pack(ctx, t, depth, scope, must, linear)
-    mts = _mtypes_with(ctx, t)
+    mts = [m for m in sorted(ctx.mtypes) if t in ctx.mtypes[m].values()]
     r = draw(st.integers(0, 9))
     if mts and r in (0, 3):
-        return _gen_get(ctx, t, depth, scope, must, linear, mts)
+        m = draw(st.sampled_from(mts))
+        tk = draw(st.sampled_from([k for k in sorted(ctx.mtypes[m]) if ctx.mtypes[m][k] == t]))
+        node, iv = gen(ctx, m, depth - 1, scope, must, linear)
+        return ["get", tk, node], iv
     if r == 1 and not linear:
         return _gen_subst(ctx, t, depth, scope, must)
     if r == 2:
@@ -1285,149 +1013,6 @@ def _gen_unary(ctx, t, depth, scope, must, linear):
     if linear:
         return _linear_unary(ctx, node, iv, t)
     return _unary(ctx, node, iv, t)
-
-
-def _mtypes_with(ctx, t):
-    return [m for m in sorted(ctx.mtypes) if t in ctx.mtypes[m].values()]
-
-
-def _gen_get(ctx, t, depth, scope, must, linear, mts):
-    draw = ctx.draw
-    m = draw(st.sampled_from(mts))
-    tk = draw(st.sampled_from([k for k in sorted(ctx.mtypes[m]) if ctx.mtypes[m][k] == t]))
-    node, iv = gen(ctx, m, depth - 1, scope, must, linear)
-    return ["get", tk, node], iv
-
-
-def _tame_lin(ctx, node, iv, linear):
-    """as _tame, but keeps a linear expression linear (scaling by a power of two)"""
-    if not linear or _mag(iv) <= BIG:
-        return _tame(ctx, node, iv)
-    c = 2.0 ** -math.ceil(math.log2(_mag(iv) / BIG))
-    return ["scale", c, node], _imul((c, c), iv)
-
-
-# ---------------------------------------------------------------- linear operators between MultiDomains
-LOP_ENTRY = S.dyadic(-1, 1, 4)
-
-
-def _lop_mat(ctx, nrow, ncol):
-    M = ctx.draw(st.lists(st.lists(LOP_ENTRY, min_size=ncol, max_size=ncol), min_size=nrow, max_size=nrow))
-    ginf = max(sum(abs(x) for x in row) for row in M)
-    g1 = max(sum(abs(M[i][j]) for i in range(nrow)) for j in range(ncol))
-    return M, ginf, g1
-
-
-def _gen_lop(ctx, A, B, depth):
-    """LinearOperator expression dom(A) -> dom(B) (A, B mtype names): (spec, bound of the inf-norm, of the 1-norm).
-    depth -1: primitive operators only; 0: also identity +/- primitive; > 0: chains, sums, scalings, adjoints"""
-    draw = ctx.draw
-    ta, tb = ctx.mtypes[A], ctx.mtypes[B]
-    ka, kb = sorted(ta), sorted(tb)
-    opts = ["mix", "mix"]
-    if A == B:
-        opts += ["id", "diag", "block"]
-        if len(ka) >= 2:
-            opts += ["proj"]
-        if depth >= 0:
-            opts += ["affine", "affine"]
-    else:
-        if set(kb) < set(ka) and all(ta[k] == tb[k] for k in kb):
-            opts += ["pe", "pe"]
-        if set(ka) < set(kb) and all(ta[k] == tb[k] for k in ka):
-            opts += ["pe_adj", "pe_adj"]
-    if depth > 0:
-        opts += ["chain", "chain", "chain", "sum", "sum", "add", "sub", "scale", "neg", "adj"]
-    kind = draw(st.sampled_from(opts))
-    if kind == "id":
-        c = draw(NUM_NZ)
-        return ["id", A, c], abs(c), abs(c)
-    if kind == "diag":
-        vs = {tk: _vec(ctx, ctx.size(ta[tk]), NUM_NZ) for tk in ka}
-        g = max(abs(x) for v in vs.values() for x in v)
-        return ["diag", A, vs], g, g
-    if kind == "block":
-        # missing entries are identities
-        sel = [tk for tk in ka if draw(st.booleans())] or [draw(st.sampled_from(ka))]
-        blocks, gi, g1 = {}, (1.0 if len(sel) < len(ka) else 0.0), (1.0 if len(sel) < len(ka) else 0.0)
-        for tk in sel:
-            n = ctx.size(ta[tk])
-            blocks[tk], a, b = _lop_mat(ctx, n, n)
-            gi, g1 = max(gi, a), max(g1, b)
-        return ["block", A, blocks], gi, g1
-    if kind == "proj":
-        keep = [tk for tk in ka if draw(st.booleans())]
-        if not keep or len(keep) == len(ka):
-            keep = [draw(st.sampled_from(ka))]
-        return ["proj", A, keep], 1.0, 1.0
-    if kind == "pe":
-        return ["pe", A, B], 1.0, 1.0
-    if kind == "pe_adj":
-        return ["pe_adj", A, B], 1.0, 1.0
-    if kind == "mix":
-        # sum of dense maps between single components; every input and every output component is used
-        pairs = {(draw(st.sampled_from(ka)), to) for to in kb} | {(ti, draw(st.sampled_from(kb))) for ti in ka}
-        for _ in range(draw(st.integers(0, 2))):
-            pairs.add((draw(st.sampled_from(ka)), draw(st.sampled_from(kb))))
-        pieces, gi, g1 = [], {}, {}
-        for ti, to in draw(st.permutations(sorted(pairs))):
-            M, a, b = _lop_mat(ctx, ctx.size(tb[to]), ctx.size(ta[ti]))
-            pieces.append([ti, to, M, draw(st.booleans())])
-            gi[to] = gi.get(to, 0.0) + a
-            g1[ti] = g1.get(ti, 0.0) + b
-        return ["mix", A, B, pieces, draw(st.sampled_from(["make", "arith"]))], max(gi.values()), max(g1.values())
-    if kind == "affine":
-        # identity plus/minus an operator (e.g. the complement of a projection)
-        x, gi, g1 = _gen_lop(ctx, A, A, depth - 1)
-        c = draw(st.sampled_from([1.0, 1.0, 2.0, 0.5, -1.0]))
-        one = ["id", A, c]
-        form = draw(st.sampled_from([["sub", one, x], ["sub", x, one], ["add", one, x], ["add", x, one]]))
-        return form, gi + abs(c), g1 + abs(c)
-    if kind == "chain":
-        C = draw(st.sampled_from([A, B] + sorted(ctx.mtypes)))
-        l1, a1, b1 = _gen_lop(ctx, C, B, depth - 1)
-        l2, a2, b2 = _gen_lop(ctx, A, C, depth - 1)
-        return ["chain", l1, l2], a1 * a2, b1 * b2
-    if kind == "sum":
-        terms = [_gen_lop(ctx, A, B, depth - 1) for _ in range(draw(st.integers(2, 3)))]
-        negs = [draw(st.booleans()) for _ in terms]
-        return ["sum", [x[0] for x in terms], negs], sum(x[1] for x in terms), sum(x[2] for x in terms)
-    if kind in ("add", "sub"):
-        l1, a1, b1 = _gen_lop(ctx, A, B, depth - 1)
-        l2, a2, b2 = _gen_lop(ctx, A, B, depth - 1)
-        return [kind, l1, l2], a1 + a2, b1 + b2
-    if kind == "scale":
-        c = draw(NUM_NZ)
-        x, gi, g1 = _gen_lop(ctx, A, B, depth - 1)
-        return ["scale", c, x], abs(c) * gi, abs(c) * g1
-    if kind == "neg":
-        x, gi, g1 = _gen_lop(ctx, A, B, depth - 1)
-        return ["neg", x], gi, g1
-    x, gi, g1 = _gen_lop(ctx, B, A, depth - 1)
-    return ["adj", x], g1, gi
-
-
-def _gen_mlin(ctx, B, depth, scope, must, linear):
-    """MultiDomain-valued (mtype B): a linear operator acting directly on a MultiDomain of input keys, or a
-    linear operator applied to a MultiDomain-valued expression.  None if neither is possible here."""
-    draw = ctx.draw
-    leaf = [A for A in ctx.kmt if set(must) <= set(ctx.mtypes[A])
-            and all(scope.get(k) == ty for k, ty in ctx.mtypes[A].items())]
-    ldepth = draw(st.sampled_from([-1, 0, 0, 1, 1, 2]))
-    if leaf and (depth <= 0 or draw(st.integers(0, 2))):
-        A = draw(st.sampled_from(leaf))
-        spec, gi, _ = _gen_lop(ctx, A, B, ldepth)
-        lo = min(ctx.key_iv(k)[0] for k in ctx.mtypes[A])
-        hi = max(ctx.key_iv(k)[1] for k in ctx.mtypes[A])
-        b = gi * _mag((lo, hi))
-        return _tame_lin(ctx, ["lop", A, B, spec], (-b, b), linear)
-    if depth <= 0:
-        return None
-    A = draw(st.sampled_from(sorted(ctx.mtypes)))
-    x, iv = gen(ctx, A, depth - 1, scope, must, linear)
-    spec, gi, _ = _gen_lop(ctx, A, B, ldepth)
-    b = gi * _mag(iv)
-    return _tame_lin(ctx, ["lapp", A, B, spec, x], (-b, b), linear)
 
 
 def _linear_unary(ctx, node, iv, t):
@@ -1617,26 +1202,6 @@ def _universe(draw):
     return types, mtypes, keys, pos
 
 
-def _key_mtypes(draw, keys, mtypes):
-    """MultiDomains made of input keys themselves (component name == key name): linear operators of the library
-    (sums, chains, block-diagonal, partial extractors) act on them directly; mk1 is a sub-domain of mk0"""
-    names = sorted(keys)
-    if draw(st.integers(0, 3)) == 0:
-        return
-    sub = names
-    if len(names) >= 3 and draw(st.integers(0, 2)) == 0:
-        sub = sorted(draw(st.permutations(names))[:draw(st.integers(2, len(names) - 1))])
-    mtypes["mk0"] = {k: keys[k] for k in sub}
-    if len(sub) >= 2 and draw(st.booleans()):
-        sub2 = sorted(draw(st.permutations(sub))[:draw(st.integers(1, len(sub) - 1))])
-        mtypes["mk1"] = {k: keys[k] for k in sub2}
-
-
-def _seq(draw, keys):
-    """which constant keys are fixed one after the other (used for 4 keys; <= 3 keys: all pairs)"""
-    return {"perm": list(draw(st.permutations(sorted(keys)))), "nconst": draw(st.sampled_from([2, 2, 3]))}
-
-
 def _values(draw, ctx, keys):
     vals = {}
     for k in sorted(keys):
@@ -1648,15 +1213,14 @@ def _values(draw, ctx, keys):
 @st.composite
 def field_recipes(draw, tier, target="any"):
     types, mtypes, keys, pos = _universe(draw)
-    _key_mtypes(draw, keys, mtypes)
     ctx = Ctx(draw, types, mtypes, keys, pos)
     depth = draw(st.integers(2, 3 if tier == "quick" else 4))
     if mtypes and draw(st.integers(0, 2)) == 0:
-        T = draw(st.sampled_from(sorted(mtypes)))
+        T = "m0"
     else:
         T = draw(st.sampled_from(ctx.base_types() + ([] if target == "linear" else ["S"])))
     expr, _ = gen(ctx, T, depth, dict(keys), sorted(keys), linear=(target == "linear"))
-    return {"types": types, "mtypes": mtypes, "keys": keys, "expr": expr, "seq": _seq(draw, keys),
+    return {"types": types, "mtypes": mtypes, "keys": keys, "expr": expr,
             "x": _values(draw, ctx, keys), "y": _values(draw, ctx, keys)}
 
 
@@ -1677,7 +1241,6 @@ def energy_recipes(draw, tier, top="lh"):
         keys[ik] = keys[rk]
         pos = sorted(set(pos) | {ik})
         raw = (rk, ik)
-    _key_mtypes(draw, keys, mtypes)
     ctx = Ctx(draw, types, mtypes, keys, pos)
     depth = draw(st.integers(1, 2 if tier == "quick" else 3))
     scope = dict(keys)
@@ -1702,7 +1265,7 @@ def energy_recipes(draw, tier, top="lh"):
             expr = ["avg", offs, expr]
     else:
         raise ValueError(top)
-    return {"types": types, "mtypes": mtypes, "keys": keys, "expr": expr, "seq": _seq(draw, keys),
+    return {"types": types, "mtypes": mtypes, "keys": keys, "expr": expr,
             "x": _values(draw, ctx, keys), "y": _values(draw, ctx, keys), "adapter": _adapter(draw)}
 
 
@@ -1733,7 +1296,7 @@ def jax_recipes(draw, tier, energy):
         expr = lh
         if draw(st.booleans()):
             expr = ["ham", draw(st.sampled_from([None, 3])), draw(st.sampled_from([None, "float"])), lh]
-        return {"types": types, "mtypes": mtypes, "keys": keys, "expr": expr, "seq": _seq(draw, keys),
+        return {"types": types, "mtypes": mtypes, "keys": keys, "expr": expr,
                 "x": _values(draw, ctx, keys), "y": _values(draw, ctx, keys), "adapter": _adapter(draw)}
     tmpl = draw(st.sampled_from(["expmul", "tanhdiff", "quot", "pair"]))
     nk = {"expmul": 3, "tanhdiff": 2, "quot": 3, "pair": 2}[tmpl]
@@ -1758,7 +1321,7 @@ def jax_recipes(draw, tier, energy):
             _binary_combine(ctx, T, other, oiv, node, iv)
     if T == "t0" and draw(st.integers(0, 2)) == 0:
         node, iv = _unary(ctx, node, iv, T)
-    return {"types": types, "mtypes": mtypes, "keys": keys, "expr": node, "seq": _seq(draw, keys),
+    return {"types": types, "mtypes": mtypes, "keys": keys, "expr": node,
             "x": _values(draw, ctx, keys), "y": _values(draw, ctx, keys)}
 
 
